@@ -6,16 +6,14 @@
   below plugs it in).  No well-formedness of any file is assumed.
 -/
 import PgVerif.Proofs.ClusterMap
-import PgVerif.Props.C10.Rows
 namespace PgVerif.Props.C10.Cluster
 open PgVerif PgVerif.Model PgVerif.Proofs PgVerif.Proofs.Cluster
 
 /-- a row reader that returns on every input -/
 def TotalReader (rr : RowReader) : Prop := ∀ data cols vis, ∃ r, rr data cols vis = .ok r
 
-/-- ReadRows itself is such a reader for every total scalar decoder (area `rows`) -/
-theorem total_with_readRows (dec : Dec) (hdec : C10.Rows.TotalDec dec) : TotalReader (readRows dec) :=
-  fun data cols vis => C10.Rows.C10_total_readRows dec hdec data cols vis
+-- ReadRows itself is such a reader for every total scalar decoder: `PgVerif.Props.C10.Rows.C10_total_readRows`
+-- (area `rows`; not imported here so that the two areas' modules build independently).
 
 /-- ParsePGDatabase returns for every byte string. -/
 theorem C10_total_parsePGDatabase (rr : RowReader) (h : TotalReader rr) (data : Bytes) :
